@@ -331,6 +331,17 @@ func witnessBurst() *scen18 {
 	return &scen18{kind: "burst:client_success", started: true, script: sc}
 }
 
+// the witness of C18_cancel_ignored_refuted: a completed pairing, quiescence, then Cancel;
+// the fake connection ignores the abort request like a real one that is not pending
+func witnessCancelIgnored() *scen18 {
+	sc := []step18{op("register"), op("connreg")}
+	sc = append(sc, reps(clientHello...)...)
+	sc = append(sc, reps(clientProt...)...)
+	sc = append(sc, reps(pinAccess...)...)
+	sc = append(sc, step18{op: "quiet"}, op("ask"), op("cancel"), step18{op: "quiet"}, op("ask"))
+	return &scen18{kind: "witness:cancel_after_completion", started: true, script: sc}
+}
+
 func randGap(r *vh.Rng, paced bool) []step18 {
 	if paced {
 		return []step18{{op: "quiet"}}
@@ -487,7 +498,7 @@ func random18(r *vh.Rng) *scen18 {
 
 func runC18(r *vh.Rng, n int, w *vh.Writer) {
 	var all []*scen18
-	all = append(all, witnessOvertake(), witnessOvertake(), witnessBurst(), witnessBurst())
+	all = append(all, witnessOvertake(), witnessOvertake(), witnessBurst(), witnessBurst(), witnessCancelIgnored())
 	for len(all) < n {
 		if r.Chance(55) {
 			all = append(all, realistic(r))
